@@ -9,11 +9,13 @@ struct StageLog { std::vector<int> order; int running = 0; };
 
 SIM_SCENARIO(scen_c07, "c07", "C07", 8000000, 40000) {
     hx::Desc d;
-    hx::draw_runtime_config(d);
-    int conc = (int)sim::draw(5, "arena_conc");
+    hx::draw_runtime_config(d, 16);     // a token can only be overtaken by as many others as there are threads
+    static const int concs[] = {0, 1, 2, 3, 4, 8, 12};
+    int conc = sim::draw_of(concs, "arena_conc");
     int nfilters = (int)sim::draw_range(2, 5, "nfilters");
-    int ntokens = (int)sim::draw_range(1, 6, "tokens");
-    static const int counts[] = {0, 1, 2, 3, 5, 9, 17, 40};
+    static const int toks[] = {1, 2, 3, 4, 5, 6, 8, 9, 12, 16};
+    int ntokens = sim::draw_of(toks, "tokens");
+    static const int counts[] = {0, 1, 2, 3, 5, 9, 17, 40, 64};
     int nitems = sim::draw_of(counts, "items");
     std::vector<tbb::filter_mode> modes(nfilters);
     std::string ms;
@@ -22,10 +24,29 @@ SIM_SCENARIO(scen_c07, "c07", "C07", 8000000, 40000) {
         modes[i] = m == 0 ? tbb::filter_mode::parallel : m == 1 ? tbb::filter_mode::serial_in_order : tbb::filter_mode::serial_out_of_order;
         ms += m == 0 ? "P" : m == 1 ? "I" : "O";
     }
+    // theme "deep reordering" (1 run in 4): ordered token assigned by a serial_in_order input filter, parallel middle
+    // stage(s) on many threads with most items slow and a few fast, a serial_in_order stage downstream, many live
+    // tokens: far-ahead tokens arrive at the ordered buffer first (buffer growth by more than one doubling)
+    bool deep = sim::draw(4, "theme_deep") == 0;
+    if (deep) {
+        modes[0] = tbb::filter_mode::serial_in_order;
+        for (int i = 1; i < nfilters - 1; ++i) modes[i] = tbb::filter_mode::parallel;
+        modes[nfilters - 1] = tbb::filter_mode::serial_in_order;
+        if (nfilters == 2) { nfilters = 3; modes.resize(3); modes[1] = tbb::filter_mode::parallel; modes[2] = tbb::filter_mode::serial_in_order; }
+        static const int dtoks[] = {9, 12, 16};
+        ntokens = sim::draw_of(dtoks, "deep_tokens");
+        nitems = 64;
+        sim::g_cfg.P = 16;
+        ms = "(deep)";
+    }
     uint64_t delay_seed = sim::draw(1u << 20, "delay_seed");
-    static const int delays[] = {0, 3, 12, 40};
+    static const int delays[] = {0, 3, 12, 40, 150};
     int maxdelay = sim::draw_of(delays, "maxdelay");
-    d.add(hx::fmt("pipeline filters=%s tokens=%d items=%d maxdelay=%d arena=%d", ms.c_str(), ntokens, nitems, maxdelay, conc));
+    // delay shapes: 0 pseudo-random per (item,stage); 1 "stragglers": every 8th item is very slow in the middle
+    // stages, the others are fast (a late item overtakes many earlier ones); 2 the last stage is slow for item 1
+    int delay_shape = (int)sim::draw(4, "delay_shape");
+    if (deep) { delay_shape = 3; if (maxdelay < 40) maxdelay = 40; conc = sim::draw_bool("deep_arena") ? 12 : 0; }   // 3: most items slow in the middle stages, a few fast ones overtake them
+    d.add(hx::fmt("pipeline filters=%s tokens=%d items=%d maxdelay=%d delay_shape=%d arena=%d", ms.c_str(), ntokens, nitems, maxdelay, delay_shape, conc));
     d.publish();
 
     std::vector<StageLog> st(nfilters);
@@ -37,6 +58,9 @@ SIM_SCENARIO(scen_c07, "c07", "C07", 8000000, 40000) {
         uint64_t h = (delay_seed + (uint64_t)item * 0x9e3779b97f4a7c15ull + (uint64_t)stage * 0xbf58476d1ce4e5b9ull);
         h ^= h >> 29; h *= 0x94d049bb133111ebull; h ^= h >> 32;
         int n = maxdelay ? (int)(h % (uint64_t)(maxdelay + 1)) : 0;
+        if (delay_shape == 1) n = (stage > 0 && stage < nfilters - 1) ? (item % 8 == 1 ? maxdelay * 3 : (int)(h % 3)) : n / 4;
+        else if (delay_shape == 2 && stage == nfilters - 1 && item == 1) n = maxdelay * 6;
+        else if (delay_shape == 3) n = (stage > 0 && stage < nfilters - 1) ? (item % 10 >= 9 ? 0 : maxdelay + (int)(h % 7)) : (stage == nfilters - 1 && item == 1 ? maxdelay * 4 : 0);
         for (int k = 0; k < n; ++k) sim::upoint();
     };
     auto enter = [&](int stage, int item) {
